@@ -27,6 +27,9 @@ pub struct Case {
     /// run once with exactly this many replications instead of 1..max_replications
     #[serde(default)]
     pub fixed_replications: Option<u64>,
+    /// first run the binary with these positional arguments and pass its JSON as --start-config
+    #[serde(default)]
+    pub start_config_from: Option<Vec<String>>,
 }
 
 fn viol(what: &str, c: &Case, detail: Value) -> Violation {
@@ -173,6 +176,26 @@ fn check_labels(c: &Case, js: &Value) -> Option<(String, Value)> {
 pub fn check(exe: &std::path::Path, tag: &str, c: &Case, st: &mut Stats) {
     let pos = positional(c);
     let pos_s: Vec<&str> = pos.iter().map(|s| s.as_str()).collect();
+    // optional first run producing a start configuration for a different request
+    let mut start_file: Option<std::path::PathBuf> = None;
+    if let Some(other) = &c.start_config_from {
+        let base = cli::scratch_dir().join(format!("{}-start-{}", tag, std::process::id()));
+        let other_s: Vec<&str> = other.iter().map(|s| s.as_str()).collect();
+        let mut pre0: Vec<&str> = vec!["--replications", "1", "--steps", "100"];
+        if c.lj {
+            pre0.push("-p");
+            pre0.push("LJ");
+        }
+        let o = cli::run_with_outfile(exe, &base, &pre0, &other_s, &[], 300, false);
+        if o.status == Some(0) && o.json.is_some() {
+            start_file = Some(base.with_extension("json"));
+            let _ = std::fs::remove_file(base.with_extension("svg"));
+            let _ = std::fs::remove_file(format!("{}.hooklog", base.display()));
+        } else {
+            st.count("start_config_run_failed(skipped)");
+            return;
+        }
+    }
     let mut prev_score: Option<f64> = None;
     let mut replica_scores_first: Vec<(i64, Option<f64>)> = vec![];
     for k in 1..=c.max_replications {
@@ -184,6 +207,10 @@ pub fn check(exe: &std::path::Path, tag: &str, c: &Case, st: &mut Stats) {
             pre.push("LJ".into());
         }
         pre.extend(c.extra.iter().cloned());
+        if let Some(f) = &start_file {
+            pre.push("--start-config".into());
+            pre.push(f.display().to_string());
+        }
         let pre_s: Vec<&str> = pre.iter().map(|s| s.as_str()).collect();
         let threads = [1usize, 2, 3, 8][(k as usize) % 4];
         let out = cli::run(exe, &format!("{}-{}", tag, k), &pre_s, &pos_s, &[("RAYON_NUM_THREADS", threads.to_string())], 300);
@@ -272,6 +299,9 @@ pub fn check(exe: &std::path::Path, tag: &str, c: &Case, st: &mut Stats) {
         }
     }
     let _ = replica_scores_first;
+    if let Some(f) = &start_file {
+        let _ = std::fs::remove_file(f);
+    }
 }
 
 pub fn gen_case<R: Rng>(rng: &mut R, i: usize, kmax: u64) -> Case {
@@ -292,6 +322,7 @@ pub fn gen_case<R: Rng>(rng: &mut R, i: usize, kmax: u64) -> Case {
         inner_steps: [100, 1000][rng.gen_range(0, 2)],
         extra: if rng.gen_bool(0.3) { vec!["--kt-finish".into(), "0.001".into()] } else { vec![] },
         fixed_replications: None,
+        start_config_from: None,
     }
 }
 
@@ -308,9 +339,17 @@ pub fn run(ctx: &Ctx) {
     let kmax = ctx.tier.pick(4u64, 12u64);
     let mut rng = ctx.rng(10);
     let mut cases: Vec<Case> = (0..n).map(|i| gen_case(&mut rng, i, kmax)).collect();
+    // purely repulsive LJ molecules (cutoff inside the minimum): every replica scores below zero
+    for (g, r, d) in [("p1", 1.6, 0.1), ("p1m1", 1.6, 0.1), ("p2mg", 1.8, 0.2), ("p2", 2.0, 0.3)].iter() {
+        cases.push(Case { group: g.to_string(), shape: "trimer".into(), sides: 4, radius: *r, angle: 120., distance: *d, lj: true, max_replications: kmax.max(5), steps: 300, inner_steps: 100, extra: vec![], fixed_replications: None, start_config_from: None });
+    }
+    // a start configuration written for ANOTHER group / shape of the same multiplicity: what is
+    // written must still be what was requested
+    cases.push(Case { group: "p2".into(), shape: "polygon".into(), sides: 6, radius: 0.637556, angle: 120., distance: 1., lj: false, max_replications: 2, steps: 200, inner_steps: 100, extra: vec![], fixed_replications: None, start_config_from: Some(vec!["p1g1".into(), "polygon".into(), "--sides".into(), "4".into()]) });
+    cases.push(Case { group: "p2gg".into(), shape: "circle".into(), sides: 4, radius: 0.637556, angle: 120., distance: 1., lj: true, max_replications: 2, steps: 200, inner_steps: 100, extra: vec![], fixed_replications: None, start_config_from: Some(vec!["p2mg".into(), "circle".into()]) });
     // many replicas converging onto near-tied scores: the written one must still be the best
     for (g, shape, lj, reps, steps, step) in [("p1", "circle", true, 48u64, 150u64, "0.02"), ("p2", "circle", true, 40, 400, "0.02"), ("p1", "polygon", false, 32, 600, "0.05")].iter() {
-        cases.push(Case { group: g.to_string(), shape: shape.to_string(), sides: 4, radius: 0.637556, angle: 120., distance: 1., lj: *lj, max_replications: 1, steps: *steps, inner_steps: 1000, extra: vec!["--max-step-size".into(), step.to_string()], fixed_replications: Some(*reps) });
+        cases.push(Case { group: g.to_string(), shape: shape.to_string(), sides: 4, radius: 0.637556, angle: 120., distance: 1., lj: *lj, max_replications: 1, steps: *steps, inner_steps: 1000, extra: vec!["--max-step-size".into(), step.to_string()], fixed_replications: Some(*reps), start_config_from: None });
     }
     use rayon::prelude::*;
     let seed = ctx.seed;
